@@ -12,7 +12,7 @@ use std::panic::{catch_unwind, AssertUnwindSafe};
 struct Finding { oracle: &'static str, input: String, observed: String, expected: String }
 type Out = Vec<Finding>;
 fn report(out: &mut Out, oracle: &'static str, input: String, observed: String, expected: String) {
-    if out.iter().filter(|f| f.oracle == oracle).count() < 2 { out.push(Finding { oracle, input, observed, expected }); }
+    if out.iter().filter(|f| f.oracle == oracle).count() < 40 { out.push(Finding { oracle, input, observed, expected }); }
 }
 fn quiet<R>(f: impl FnOnce() -> R) -> Result<R, String> {
     catch_unwind(AssertUnwindSafe(f)).map_err(|e| e.downcast_ref::<&str>().map(|s| s.to_string()).or_else(|| e.downcast_ref::<String>().cloned()).unwrap_or_else(|| "panic".into()))
@@ -347,8 +347,30 @@ fn c09(rng: &mut Rng, out: &mut Out) {
                 if !fin || r.is_err() { report(out, "C09 an already-solved system is accepted and x stays finite", format!("{} {} solver={}", ctx, what, name), format!("{:?} x={:?}", r, x), "Ok, finite x".into()); }
             }
         }
-        // convergence on well-posed systems within O(n) iterations
-        for (name, r, x) in solvers(&s, &bv, &Vector::create(vec![0.0; n]), 10 * n + 20, tol) {
+    }
+    // convergence on well-posed systems within O(n) iterations: a FIXED suite (independent of the seed), so that
+    // the failures of the unchanged library are a fixed, listed set (known_findings.json) and anything else is new
+    let mut fx = Rng(0x5DEECE66D1234567);
+    // two systems on which the unchanged library is known to fail (open findings, see known_findings.json)
+    let known: Vec<(Vec<Vec<f64>>, Vec<f64>)> = vec![
+        (vec![vec![30.0, 2.0, 0.0, 0.0], vec![0.0, 31.0, 1.5, 0.0], vec![0.0, 0.0, 32.0, -1.5], vec![0.0, -3.0, 0.0, 33.0]], vec![0.0, -6.0, -130.25, 49.5]),
+        (vec![vec![30.0, 0.0, 4.0], vec![0.0, 31.0, 0.0], vec![0.0, 0.0, 32.0]], vec![-48.0, -108.5, 96.0]),
+    ];
+    for it in 0..162 {
+        let n = 1 + fx.below(10) as usize;
+        let mut d = vec![vec![0.0f64; n]; n];
+        for i in 0..n { for j in 0..n { if fx.below(3) == 0 { d[i][j] = fx.f(); } } }
+        let mut spd = it % 2 == 0;
+        if spd { for i in 0..n { for j in 0..i { d[i][j] = d[j][i]; } } }
+        for i in 0..n { d[i][i] = 30.0 + i as f64; }
+        let scale = [1.0, 1e-6, 1e6, 1e-20][it % 4];
+        let xs: Vec<f64> = (0..n).map(|_| fx.f()).collect();
+        let mut b: Vec<f64> = (0..n).map(|i| scale * (0..n).map(|j| d[i][j] * xs[j]).sum::<f64>()).collect();
+        if it >= 160 { d = known[it - 160].0.clone(); b = known[it - 160].1.clone(); spd = false; }
+        let n = d.len();
+        let s = sparse_f(&d); let bv = Vector::create(b.clone());
+        let ctx = format!("A={:?} b={:?}", d, b);
+        for (name, r, x) in solvers(&s, &bv, &Vector::create(vec![0.0; n]), 10 * n + 20, 1e-8) {
             if name == "cg" && !spd { continue; }
             let ok = r.is_ok() && resid(&d, &x, &b) <= 1e-5;
             if !ok { report(out, "C09 converges on SPD / strictly diagonally dominant systems", format!("{} solver={}", ctx, name), format!("{:?} residual={:e}", r, resid(&d, &x, &b)), "Ok within 10n+20 iterations".into()); }
